@@ -43,9 +43,9 @@ def plan(tier, keys):
                              styles=("std", "braced", "ws"), sigmas=1))
         return jobs
     for g in range(GROUPS):
-        jobs.append(dict(name="gen%d" % g, keys=base[g::GROUPS], scope=1, max_mut=1, mut_depth=3, frames=3, styles=ALL_STYLES, sigmas=2))
+        jobs.append(dict(name="gen%d" % g, keys=base[g::GROUPS], scope=1, max_mut=1, mut_depth=3, frames=2, styles=ALL_STYLES, sigmas=2))
     for g in range(GROUPS):
-        jobs.append(dict(name="reuse%d" % g, keys=reuse[g::GROUPS], scope=0, max_mut=1, mut_depth=3, frames=2, styles=ALL_STYLES, sigmas=2))
+        jobs.append(dict(name="reuse%d" % g, keys=reuse[g::GROUPS], scope=0, max_mut=1, mut_depth=3, frames=3, styles=ALL_STYLES, sigmas=1))
     # second-order mutants (two operators in a row), except for the types with model-value fields (too many)
     two = [k for k in base if k not in ("WithValue", "BodyValue", "HdrValue", "ModelVal", "VecNest", "Coll")]
     n2 = 2 * GROUPS
@@ -676,6 +676,8 @@ def kf_match(f, law, kind, ty, subject, bits):
             continue
         if "via" in sig and bits.get("m") != sig["via"]:
             continue
+        if "prev_direct" in sig and bits.get("prev_d") != sig["prev_direct"]:      # the frame decoded just before on the same decoder
+            continue
         return True
     return False
 
@@ -765,7 +767,7 @@ def report(out, tier, jobs, table, failed, tot, cov, gst, wd):
     per_sig = {}
     rows_by_id = {}
     # the failing rows' bits: re-read from the chunk files
-    want = {f["id"] for f in failed}
+    want = {f["id"] for f in failed} | {f["id"] - 1 for f in failed}
     if want:
         for p, first, cnt in table.chunks:
             if any(first <= i < first + cnt for i in want):
@@ -783,6 +785,8 @@ def report(out, tier, jobs, table, failed, tot, cov, gst, wd):
             # a frame of a sequence is a document: the same signatures apply to its text
             # (clauses with op "seq" apply to the 2nd and later frames only: a recognizer that has been reset)
             subj, mkinds = subject[0][subject[1]], (("seq", "doc") if subject[1] > 0 else ("doc",))
+            if subject[1] > 0 and f["id"] - 1 in rows_by_id:
+                row = dict(row, prev_d=rows_by_id[f["id"] - 1]["d"])
         else:
             subj, mkinds = (subject if kind == "doc" else canon(subject)), (kind,)
         covering = [next((kf for kf in findings if any(kf_match(kf, law, mk, ty, subj, row) for mk in mkinds)), None) for law in laws]
